@@ -20,6 +20,7 @@ func c17(c *core.Ctx) map[string]interface{} {
 	r17amf(c)
 	r17ipX(c)
 	r17pco(c)
+	r17pcoid(c)
 	r17snssaiCtor(c)
 	r9acc(c)
 	return nil
